@@ -1153,7 +1153,7 @@ Verdict propHistory(Ctx& c) {
 
 int main(int argc, char** argv) {
   std::vector<pbt::Prop> props;
-  props.push_back({"history", propHistory, 400, 2000, false, false,
+  props.push_back({"history", propHistory, 1500, 8000, false, false,
                    "histories of 3-25 OSS operations; non-trivial = edit/execute child/edit again/execute grandchild, or load with permuted items, or an executed diamond"});
   return pbt::main(argc, argv, "C19", props);
 }
